@@ -4,6 +4,7 @@ import (
 	"fmt"
 	"math"
 	"strings"
+	"unicode/utf16"
 	"unicode/utf8"
 
 	"github.com/robertkrimen/otto/token"
@@ -61,6 +62,18 @@ func (rt *runtime) calculateBinaryExpression(operator token.Token, left Value, r
 		rightValue = toPrimitiveValue(rightValue)
 
 		if leftValue.IsString() || rightValue.IsString() {
+			left16, isLeft16 := leftValue.value.([]uint16)
+			right16, isRight16 := rightValue.value.([]uint16)
+			if isLeft16 || isRight16 {
+				// An operand holds an unpaired surrogate: concatenate the UTF-16 code units.
+				if !isLeft16 {
+					left16 = utf16.Encode([]rune(leftValue.string()))
+				}
+				if !isRight16 {
+					right16 = utf16.Encode([]rune(rightValue.string()))
+				}
+				return utf16Value(append(append([]uint16(nil), left16...), right16...))
+			}
 			return stringValue(strings.Join([]string{leftValue.string(), rightValue.string()}, ""))
 		}
 		return float64Value(leftValue.float64() + rightValue.float64())
